@@ -1,1 +1,257 @@
-//! c17 — harnesses not written yet.
+//! C17 — simulated-annealing acceptance follows the Metropolis rule.
+//! Code: mahf::components::replacement::sa::{ExponentialAnnealingAcceptance::{init,execute},Temperature}, mahf::components::mapping::sa::GeometricCooling::{from_params,map,execute}, mahf::components::mapping::mapping
+//! Out: the numeric accuracy of libm's exp (axiomatised: sign/monotonic facts only, argument recorded); populations with more than one individual
+//! Assume: stack in the order the shipped SA template builds it (current below, candidate on top); exp stub axioms: NaN iff NaN, r >= 0, exp(0) = 1, x > 0 => r >= 1, x < 0 => r <= 1, exp(+inf) = +inf, exp(-inf) = 0
+use mahf::components::mapping::sa::GeometricCooling;
+use mahf::components::mapping::Mapping;
+use mahf::components::replacement::sa::{ExponentialAnnealingAcceptance, Temperature};
+use mahf::components::Component;
+use mahf::lens::ValueOf;
+use mahf::state::common::Populations;
+use mahf::{Individual, State};
+
+use crate::problems::{obj, TagP};
+use crate::rng::{draws, sym_random};
+use crate::sym;
+
+#[cfg(kani)]
+static mut EXP_ARG: f64 = 0.0;
+#[cfg(kani)]
+static mut EXP_RET: f64 = 0.0;
+#[cfg(kani)]
+static mut EXP_CALLS: u32 = 0;
+#[cfg(kani)]
+fn exp_model(x: f64) -> f64 {
+    let r: f64 = kani::any();
+    if x.is_nan() {
+        kani::assume(r.is_nan());
+    } else {
+        kani::assume(!r.is_nan() && r >= 0.0);
+        if x == 0.0 {
+            kani::assume(r == 1.0);
+        }
+        if x > 0.0 {
+            kani::assume(r >= 1.0);
+        }
+        if x < 0.0 {
+            kani::assume(r <= 1.0);
+        }
+        if x == f64::INFINITY {
+            kani::assume(r == f64::INFINITY);
+        }
+        if x == f64::NEG_INFINITY {
+            kani::assume(r == 0.0);
+        }
+    }
+    unsafe {
+        EXP_ARG = x;
+        EXP_RET = r;
+        EXP_CALLS += 1;
+    }
+    r
+}
+
+fn sa_state(f_cur: f64, f_cand: f64, t: f64, with_base: bool) -> State<'static, TagP> {
+    let mut pops = Populations::<TagP>::new();
+    if with_base {
+        pops.push(vec![Individual::new(9u8, obj(0.0))]);
+    }
+    pops.push(vec![Individual::new(0u8, obj(f_cur))]); // current
+    pops.push(vec![Individual::new(1u8, obj(f_cand))]); // candidate (on top, as the template builds it)
+    let mut s: State<TagP> = State::new();
+    s.insert(Temperature(t));
+    s.insert(sym_random(1));
+    s.insert(pops);
+    s
+}
+
+fn survivor(s: &State<'static, TagP>, with_base: bool) -> u8 {
+    let p = s.populations();
+    assert!(p.len() == if with_base { 2 } else { 1 }, "the two single-individual populations are reduced to one");
+    assert!(p.current().len() == 1, "the remaining population holds exactly the survivor");
+    if with_base {
+        assert!(p.peek(1).len() == 1 && *p.peek(1)[0].solution() == 9, "populations underneath are untouched");
+    }
+    *p.current()[0].solution()
+}
+
+/// @h tier=quick bound="all finite objective pairs with candidate <= current, all finite T > 0, the uniform draw symbolic" unwind=4 cost=4
+#[cfg_attr(kani, kani::proof)]
+#[cfg_attr(kani, kani::unwind(4))]
+#[cfg_attr(kani, kani::stub(f64::exp, exp_model))]
+pub fn h_c17_better_or_equal_always_accepted() {
+    let (f_cur, f_cand, t) = (sym::finite_f64(), sym::finite_f64(), sym::finite_f64());
+    sym::assume(t > 0.0 && f_cand <= f_cur);
+    let mut s = sa_state(f_cur, f_cand, t, false);
+    let c = ExponentialAnnealingAcceptance::new::<TagP>(1.0);
+    let r = c.execute(&TagP, &mut s);
+    assert!(r.is_ok(), "acceptance succeeds on two single-individual populations");
+    let who = survivor(&s, false);
+    assert!(who == 1, "a candidate at least as good as the current solution always replaces it");
+    vcover!(f_cand == f_cur, "tie");
+    vcover!(f_cand < f_cur, "strictly better");
+    std::mem::forget((s, c));
+}
+
+fn worse(t: f64, with_base: bool, check_arg: bool) {
+    let (f_cur, f_cand) = (sym::finite_f64(), sym::finite_f64());
+    sym::assume(t > 0.0 && f_cand > f_cur);
+    let mut s = sa_state(f_cur, f_cand, t, with_base);
+    let c = ExponentialAnnealingAcceptance::new::<TagP>(1.0);
+    let r = c.execute(&TagP, &mut s);
+    assert!(r.is_ok(), "acceptance succeeds on two single-individual populations");
+    let who = survivor(&s, with_base);
+    assert!(who == 0 || who == 1, "the survivor is one of the two");
+    #[cfg(kani)]
+    unsafe {
+        // the acceptance probability is exp(-(f(candidate) - f(current)) / T): the decision is
+        // `u < exp(arg)` for the recorded return value of exp
+        assert!(EXP_CALLS == 1, "exp is evaluated once");
+        assert!(EXP_ARG <= 0.0, "a worse candidate has a non-positive exponent, i.e. acceptance probability <= 1");
+        if check_arg {
+            assert!(EXP_ARG == (f_cur - f_cand) / t, "the exponent is -(f(candidate) - f(current)) / T");
+        }
+        if EXP_RET == 0.0 {
+            assert!(who == 0, "probability 0 (T -> 0): a worse candidate is never accepted");
+        }
+        if EXP_RET >= 1.0 {
+            assert!(who == 1, "probability 1 (T -> inf): a worse candidate is always accepted");
+        }
+    }
+    assert!(draws() <= 1, "at most one uniform draw");
+    vcover!(who == 1, "worse candidate accepted");
+    vcover!(who == 0, "worse candidate rejected");
+    std::mem::forget((s, c));
+}
+/// @h tier=quick bound="all finite objective pairs with candidate > current, all finite T > 0, the uniform draw symbolic; exp axiomatised and recorded" unwind=4 cost=5 mem=12 timeout=600
+#[cfg_attr(kani, kani::proof)]
+#[cfg_attr(kani, kani::unwind(4))]
+#[cfg_attr(kani, kani::stub(f64::exp, exp_model))]
+pub fn h_c17_worse_metropolis() {
+    worse(sym::finite_f64(), false, false)
+}
+/// @h tier=quick bound="as above with a further population underneath (stack height 3)" unwind=4 cost=5 mem=12 timeout=600
+#[cfg_attr(kani, kani::proof)]
+#[cfg_attr(kani, kani::unwind(4))]
+#[cfg_attr(kani, kani::stub(f64::exp, exp_model))]
+pub fn h_c17_worse_metropolis_base() {
+    worse(sym::finite_f64(), true, false)
+}
+/// @h tier=quick bound="T = 2: the exponent handed to exp is bit-equal to -(f(candidate) - f(current)) / T" unwind=4 cost=5 mem=12 timeout=600
+#[cfg_attr(kani, kani::proof)]
+#[cfg_attr(kani, kani::unwind(4))]
+#[cfg_attr(kani, kani::stub(f64::exp, exp_model))]
+pub fn h_c17_worse_exponent_t2() {
+    worse(2.0, false, true)
+}
+/// @h tier=thorough bound="all finite T > 0: the exponent handed to exp is bit-equal to -(f(candidate) - f(current)) / T (symbolic divider)" unwind=4 cost=9 mem=24 timeout=2400
+#[cfg_attr(kani, kani::proof)]
+#[cfg_attr(kani, kani::unwind(4))]
+#[cfg_attr(kani, kani::stub(f64::exp, exp_model))]
+pub fn h_c17_worse_exponent_any_t() {
+    worse(sym::finite_f64(), false, true)
+}
+
+/// Wrong cardinalities are errors, not panics.
+/// @h tier=quick bound="candidate population empty" unwind=4 cost=3
+#[cfg_attr(kani, kani::proof)]
+#[cfg_attr(kani, kani::unwind(4))]
+#[cfg_attr(kani, kani::stub(f64::exp, exp_model))]
+pub fn h_c17_missing_candidate_is_err() {
+    let mut pops = Populations::<TagP>::new();
+    pops.push(vec![Individual::new(0u8, obj(sym::legal_f64()))]);
+    pops.push(Vec::new());
+    let mut s: State<TagP> = State::new();
+    s.insert(Temperature(1.0));
+    s.insert(sym_random(1));
+    s.insert(pops);
+    let c = ExponentialAnnealingAcceptance::new::<TagP>(1.0);
+    assert!(c.execute(&TagP, &mut s).is_err(), "a missing candidate is reported as an error");
+    vcover!(true, "reached");
+    std::mem::forget((s, c));
+}
+
+/// @h tier=quick bound="init inserts the initial temperature, any finite t0" unwind=4 cost=2
+#[cfg_attr(kani, kani::proof)]
+#[cfg_attr(kani, kani::unwind(4))]
+pub fn h_c17_init_temperature() {
+    let t0 = sym::finite_f64();
+    let c = ExponentialAnnealingAcceptance::new::<TagP>(t0);
+    let mut s: State<TagP> = State::new();
+    assert!(c.init(&TagP, &mut s).is_ok(), "init succeeds");
+    assert!(s.try_get_value::<Temperature>().ok().map(f64::to_bits) == Some(t0.to_bits()), "the temperature starts at t0");
+    vcover!(true, "reached");
+    std::mem::forget((s, c));
+}
+
+// ---- geometric cooling ---------------------------------------------------------------------------------
+
+/// @h tier=quick bound="every f64 alpha: constructor accepts exactly [0,1)"
+#[cfg_attr(kani, kani::proof)]
+#[cfg_attr(kani, kani::unwind(3))]
+pub fn h_c17_cooling_params() {
+    let a = sym::f64();
+    let r = GeometricCooling::from_params(a, ValueOf::<Temperature>::new());
+    assert!(r.is_ok() == (a >= 0.0 && a < 1.0), "geometric cooling accepts exactly alpha in [0, 1)");
+    vcover!(r.is_ok(), "accepted");
+    std::mem::forget(r);
+}
+
+/// @h tier=quick bound="every finite T, every alpha in [0,1): map multiplies once" unwind=3 cost=3 timeout=600
+#[cfg_attr(kani, kani::proof)]
+#[cfg_attr(kani, kani::unwind(3))]
+pub fn h_c17_cooling_map() {
+    let (t, a) = (sym::finite_f64(), sym::f64());
+    sym::assume(a >= 0.0 && a < 1.0);
+    let c = match GeometricCooling::from_params(a, ValueOf::<Temperature>::new()) {
+        Ok(c) => c,
+        Err(_) => {
+            assert!(false, "legal alpha");
+            return;
+        }
+    };
+    let mut rng = sym_random(0);
+    let r = Mapping::<TagP>::map(&c, t, &mut rng);
+    match r {
+        Ok(v) => assert!(v.to_bits() == (t * a).to_bits(), "cooling multiplies the temperature by its factor exactly once"),
+        Err(_) => assert!(false, "cooling never errs"),
+    }
+    vcover!(true, "reached");
+    std::mem::forget((c, rng));
+}
+
+fn cooling_execute(a: f64) {
+    let t = sym::finite_f64();
+    let c = match GeometricCooling::from_params(a, ValueOf::<Temperature>::new()) {
+        Ok(c) => c,
+        Err(_) => {
+            assert!(false, "legal alpha");
+            return;
+        }
+    };
+    let mut s: State<TagP> = State::new();
+    s.insert(Temperature(t));
+    s.insert(sym_random(0));
+    assert!(Component::<TagP>::execute(&c, &TagP, &mut s).is_ok(), "cooling succeeds");
+    assert!(s.try_get_value::<Temperature>().ok().map(f64::to_bits) == Some((t * a).to_bits()), "after one execution the stored temperature is T * alpha (multiplied exactly once)");
+    vcover!(t > 0.0 && t < 1e-300, "tiny temperature");
+    std::mem::forget((s, c));
+}
+/// @h tier=quick bound="alpha = 0.5, every finite T (including subnormal results): through the component and its lenses" unwind=4 cost=3
+#[cfg_attr(kani, kani::proof)]
+#[cfg_attr(kani, kani::unwind(4))]
+pub fn h_c17_cooling_execute_half() {
+    cooling_execute(0.5)
+}
+/// @h tier=quick bound="alpha = 0 (legal), every finite T" unwind=4 cost=3
+#[cfg_attr(kani, kani::proof)]
+#[cfg_attr(kani, kani::unwind(4))]
+pub fn h_c17_cooling_execute_zero() {
+    cooling_execute(0.0)
+}
+/// @h tier=thorough bound="alpha = 0.9, every finite T" unwind=4 cost=8 mem=12 timeout=2400
+#[cfg_attr(kani, kani::proof)]
+#[cfg_attr(kani, kani::unwind(4))]
+pub fn h_c17_cooling_execute_09() {
+    cooling_execute(0.9)
+}
